@@ -290,6 +290,7 @@ FUNCTIONS = [
     ("mpqs", "src/mpqs.rs", "large_prime_factor", ("n",), [], None),
     ("mpqs", "src/mpqs.rs", "double_large_factor", ("n",), [], None),
     ("qsieve", "src/qsieve.rs", "large_prime_factor", ("n",), [], None),
+    ("qsieve", "src/qsieve.rs", "max_large_prime", (), [], None),
     ("qsieve", "src/qsieve.rs", "nblocks", ("n",),
      [(r"\(&self\)", "(n: &Uint)"), (r"self\.n\.bits\(\)", "n.bits()")], "`self.n` is the parameter `n`"),
     ("classgroup", "src/classgroup.rs", "a_params", (), [], None),
@@ -318,6 +319,41 @@ def synth_functions(report):
     out.append(("fbase", "padded_len", f"fn padded_len(size: u32, prepared_len: usize) -> usize {{ {expr} }}", (),
                 "argument of `prepared.truncate(..)` in `FBase::new`: number of primes kept"))
     must(r"assert!\(primes\.len\(\) % 8 == 0\);", new, "FBase::new: assert len % 8 == 0")
+    # single large prime bound of the four sieves (maxlarge): statements of the main functions
+    FAC = r"prefs\.large_factor\.unwrap_or\(large_prime_factor\((?:&n|adjsize)\)\)"
+    for mod in ("siqs", "classgroup"):
+        body = rx.strip_comments(src(f"src/{mod}.rs"))
+        m = must(r"(let maxprime = fbase\.bound\(\) as u64;)\s*(let maxlarge: u64 = maxprime \* " + FAC + r";)\s*"
+                 r"(let maxlarge = [^;]*;)\s*let maxdouble = if use_double \{\s*(maxprime \* maxprime \* double_large_factor\(&[nd]\))\s*\} else \{\s*0\s*\};",
+                 body, f"{mod}: maxprime/maxlarge/maxdouble statements")
+        stm = rewrite(" ".join(m.group(i) for i in (1, 2, 3)), [(r"fbase\.bound\(\)", "bound"), (FAC, "factor")], f"{mod} maxlarge")
+        out.append((mod, "maxlarge", f"fn maxlarge(bound: u32, factor: u64) -> u64 {{ {stm} maxlarge }}", (),
+                    f"statements of `{mod}::{mod}`: single large prime bound from `fbase.bound()` and the large prime factor"))
+        stm = rewrite(m.group(1) + " " + m.group(4), [(r"fbase\.bound\(\)", "bound"), (r"double_large_factor\(&[nd]\)", "dfactor")], f"{mod} maxdouble")
+        out.append((mod, "maxdouble", f"fn maxdouble(bound: u32, dfactor: u64) -> u64 {{ {stm} }}", (),
+                    f"statements of `{mod}::{mod}`: double large prime bound (when `use_double`)"))
+    body = rx.strip_comments(src("src/mpqs.rs"))
+    m = must(r"(let maxprime = fbase\.bound\(\) as u64;)\s*(let mut maxlarge: u64 = maxprime \* " + FAC + r";)\s*"
+             r"(if maxlarge > u32::MAX as u64 \{[^}]*\})\s*(if use_double && maxlarge < 2 \* maxprime \{[^}]*\})\s*if prefs\.verbose",
+             body, "mpqs: maxprime/maxlarge statements")
+    stm = rewrite(" ".join(m.groups()), [(r"fbase\.bound\(\)", "bound"), (FAC, "factor")], "mpqs maxlarge")
+    out.append(("mpqs", "maxlarge", f"fn maxlarge(bound: u32, factor: u64, use_double: bool) -> u64 {{ {stm} maxlarge }}", (),
+                "statements of `mpqs::mpqs`: single large prime bound"))
+    m = must(r"let max_cofactor: u64 = if s\.use_double \{\s*(maxprime \* maxprime \* double_large_factor\(&s\.n\))\s*\} else if maxlarge > maxprime",
+             body, "mpqs: max_cofactor")
+    stm = rewrite(m.group(1), [(r"double_large_factor\(&s\.n\)", "dfactor")], "mpqs maxdouble")
+    out.append(("mpqs", "maxdouble", f"fn maxdouble(maxprime: u64, dfactor: u64) -> u64 {{ {stm} }}", (),
+                "`mpqs::sieve_block_poly`: double large prime bound (when `use_double`)"))
+    qsb = rx.strip_comments(src("src/qsieve.rs"))
+    must(r"let maxlarge: u64 = max_large_prime\(\s*fbase\.bound\(\),\s*" + FAC + r",?\s*\);\s*let qs = SieveQS::new\(n, &fbase, maxlarge, use_double\);",
+         qsb, "qsieve: maxlarge = max_large_prime(fbase.bound(), factor)")
+    m = must(r"let max_cofactor = if s\.use_double \{\s*(maxlarge \* maxprime \* 2)\s*\} else if maxlarge > maxprime", qsb, "qsieve: max_cofactor")
+    out.append(("qsieve", "max_cofactor_double", f"fn max_cofactor_double(maxlarge: u64, maxprime: u64) -> u64 {{ {m.group(1)} }}", (),
+                "`qsieve::sieve_block`: cofactor bound with double large primes"))
+    # the consumers of maxlarge
+    must(r"if cofactor > maxlarge \* maxlarge \{", fb, "fbase::cofactor: maxlarge * maxlarge")
+    for mod in ("siqs", "mpqs", "classgroup"):
+        must(r"assert!\(maxlarge == \(maxlarge as u32\) as u64\);", rx.strip_comments(src(f"src/{mod}.rs")), f"{mod}: assert maxlarge fits u32")
     # MultiZmodP::new
     fft = src("src/arith_fft.rs")
     mz = rx.strip_comments(fft)
@@ -370,6 +406,9 @@ def gen_params(report, uint_bits):
              "qsieve: size limit")
     qs_max_bits = int(m.group(1))
     must(r"assert!\(MAX_MULTIPLIER \* MAX_MULTIPLIER < 1 << 16\);", fbs, "select_multiplier assert")
+    m = must(r"if p >= 1 << (\d+) \{\s*return None;\s*\}\s*let div = arith::Dividers::new\(p\);", fbs,
+             "prepare_factor_base: 24-bit filter before Dividers::new")
+    fb_prime_bits = int(m.group(1))
     # polyring
     ap = rx.strip_comments(src("src/arith_poly.rs"))
     must(r"if size >= FFT_THRESHOLD \{\s*let logsize = usize::BITS - usize::leading_zeros\(size - 1\);\s*"
@@ -407,6 +446,8 @@ def gen_params(report, uint_bits):
     const("MAX_MULTIPLIER", max_multiplier, "`fbase::MAX_MULTIPLIER`")
     const("IDX_BY_LOG_LEN", idx_by_log_len, "length of `FBase::idx_by_log` (`24 + 2`): `FBase::new` writes index `bitlen p`, "
           "`Sieve::new` reads index `bitlen(maxprime) + 1`")
+    const("FB_PRIME_BITS", fb_prime_bits, "`prepare_factor_base` drops every prime `p >= 1 << 24` before `Dividers::new(p)`: "
+          "all factor base primes (and `FBase::bound()`) are below 2^24")
     const("DIVIDERS_MAX_BITS", dividers_bits, "`Dividers::new(p)` asserts `p >> 30 == 0`")
     const("QS_MAX_BITS", qs_max_bits, "`qsieve::qsieve` refuses `n.bits() >` this")
     const("CONVOLVE_MAX_BITS", conv_max_bits, "`convolve_modn` asserts `zn.n.bits() ≤` this after the dispatch")
